@@ -154,6 +154,17 @@ def snp_events(run, tier, seed, tag, ks=None, n=None):
             samples = [[x["seq"] for x in recs] for recs in sc["samples"]]
             anc = sc["ancestor"]
             for si, p in enumerate(sc["sites"]):
+                col = sc["alleles"][si]
+                if si == 0 and ci % 2 == 0:
+                    # every carrier of the rarest allele also holds a copy with the commonest one: that allele is seen only in
+                    # ambiguous ('N') samples, the column is left with a single A/C/G/T allele and must not be reported
+                    rare = min(set(col), key=lambda a: (col.count(a), a))
+                    common = max(set(col), key=lambda a: (col.count(a), a))
+                    lo_, hi_ = max(0, p - k - rng.randint(0, 5)), min(len(anc), p + k + 1 + rng.randint(0, 5))
+                    for smp in range(ns):
+                        if col[smp] == rare:
+                            samples[smp].append(anc[lo_:p] + common + anc[p + 1:hi_])
+                    continue
                 for smp in rng.sample(range(ns), rng.choice([0, 1, 1, 2])):
                     other = rng.choice([x for x in set(sc["alleles"][si]) if x != sc["alleles"][si][smp]])
                     lo_, hi_ = max(0, p - k - rng.randint(0, 5)), min(len(anc), p + k + 1 + rng.randint(0, 5))
